@@ -54,6 +54,11 @@ pub struct Inner {
     /// called by the controller after every step (all threads parked) with the thread that moved;
     /// returns extra observation lines (e.g. memory that changed during the step)
     pub observer: Option<Box<dyn FnMut(usize) -> Vec<String> + Send>>,
+    /// names for locations only known by the site that touches them / by address arithmetic
+    pub site_names: HashMap<String, String>,
+    pub resolver: Option<Box<dyn Fn(usize) -> Option<String> + Send>>,
+    /// names of file descriptors in system-call lines
+    pub fd_names: HashMap<i64, String>,
     pub last_granted: Option<usize>,
     pub extra_enabled: Option<Box<dyn Fn(&Inner, usize, &Pending) -> bool + Send>>,
 }
@@ -131,6 +136,9 @@ pub fn install(sites: HashMap<(String, u32), String>) -> Arc<Sched> {
             abort: false,
             nest_fn: None,
             observer: None,
+            site_names: HashMap::new(),
+            resolver: None,
+            fd_names: HashMap::new(),
             last_granted: None,
             extra_enabled: None,
         }),
@@ -194,7 +202,28 @@ fn hook_pre(e: &shim::Event) -> shim::Inject {
         Some(t) => t,
         None => return shim::Inject::None,
     };
-    s.park(tid, Pending { op: e.op, addr: e.addr, name: e.name, desc: String::new() })
+    let inj = s.park(tid, Pending { op: e.op, addr: e.addr, name: e.name, desc: String::new() });
+    // a write / send that would block for ever (blocking descriptor, no room): do not perform it —
+    // report it instead (the calling thread may be inside a signal handler)
+    if e.op == shim::Op::Syscall && (e.name == "write" || e.name == "send") {
+        let fd = e.arg as i32;
+        let flags = (e.arg2 >> 32) as i32;
+        let dontwait = e.name == "send" && (flags & libc::MSG_DONTWAIT) != 0;
+        let fl = unsafe { libc::fcntl(fd, libc::F_GETFL) };
+        let nonblock = fl >= 0 && (fl & libc::O_NONBLOCK) != 0;
+        if !dontwait && !nonblock && fl >= 0 {
+            let mut p = libc::pollfd { fd, events: libc::POLLOUT, revents: 0 };
+            let r = unsafe { libc::poll(&mut p, 1, 0) };
+            if r == 0 {
+                let mut g = s.inner.lock().unwrap();
+                let name = g.fd_names.get(&(fd as i64)).cloned().unwrap_or_else(|| format!("fd{}", fd));
+                let depth = IN_DELIVERY.with(|d| d.get());
+                g.log.push(format!("t{} {}WOULD-BLOCK {} {}", tid, if depth > 0 { "H " } else { "" }, e.name, name));
+                return shim::Inject::Return(-1);
+            }
+        }
+    }
+    inj
 }
 
 fn hook_post(e: &shim::Event, result: u64, ok: bool) {
@@ -220,12 +249,23 @@ fn hook_post(e: &shim::Event, result: u64, ok: bool) {
             if e.op == shim::Op::Free {
                 g.allocs.remove(&e.addr);
             }
+            if e.op == shim::Op::Cas && crate::iterconc::LEARN.load(std::sync::atomic::Ordering::SeqCst) {
+                drop(g);
+                crate::iterconc::learn(e.addr);
+            }
             return;
         }
     };
-    let loc = g.loc_name(e.addr);
-    let is_ptr = loc.ends_with("data");
     let site = g.site(e.file, e.line);
+    let mut loc = g.loc_name(e.addr);
+    if loc.starts_with('?') {
+        if let Some(n) = g.site_names.get(&site) {
+            loc = n.clone();
+        } else if let Some(n) = g.resolver.as_ref().and_then(|r| r(e.addr)) {
+            loc = n;
+        }
+    }
+    let is_ptr = loc.ends_with("data");
     let o = ord_name(e.ord);
     let val = |g: &mut Inner, v: u64| -> String {
         if is_ptr { g.snap_id(v as usize).to_string() } else { v.to_string() }
@@ -262,7 +302,23 @@ fn hook_post(e: &shim::Event, result: u64, ok: bool) {
             g.allocs.remove(&e.addr);
             format!("free {}", id)
         }
-        shim::Op::Syscall => format!("sys {} {} {} = {}", e.name, e.arg as i64, e.arg2 as i64, result as i64),
+        shim::Op::Syscall => {
+            if e.name == "sigaction" {
+                format!("sys {} {} {} = {}", e.name, e.arg as i64, e.arg2 as i64, result as i64)
+            } else {
+                let fd = g.fd_names.get(&(e.arg as i64)).cloned().unwrap_or_else(|| format!("fd{}", e.arg as i64));
+                let len = e.arg2 & 0xffff_ffff;
+                let flags = (e.arg2 >> 32) as i64;
+                let fdfl = unsafe { libc::fcntl(e.arg as i32, libc::F_GETFL) };
+                let nonblock = fdfl >= 0 && (fdfl & libc::O_NONBLOCK) != 0;
+                let fl = if e.name == "send" || e.name == "recv" {
+                    if flags & (libc::MSG_DONTWAIT as i64) != 0 { " dontwait" } else if nonblock { " nonblock-fd" } else { " BLOCKING" }
+                } else if e.name == "write" {
+                    if nonblock { " nonblock-fd" } else { " BLOCKING" }
+                } else { "" };
+                format!("sys {} {} len={}{} = {}", e.name, fd, len, fl, result as i64)
+            }
+        }
     };
     let depth = IN_DELIVERY.with(|d| d.get());
     g.log.push(format!("t{} {}{}", tid, if depth > 0 { "H " } else { "" }, text));
@@ -270,6 +326,16 @@ fn hook_post(e: &shim::Event, result: u64, ok: bool) {
 }
 
 impl Sched {
+    /// a silent scheduling point with a name the enabledness filter can look at
+    pub fn point_named(&self, name: &'static str, desc: String) {
+        let _hg = HarnessGuard::new();
+        if let Some(tid) = TID.with(|t| t.get()) {
+            self.park(tid, Pending { op: shim::Op::Spin, addr: 0, name, desc });
+            let mut g = self.inner.lock().unwrap();
+            g.threads[tid].own_steps += 1;
+        }
+    }
+
     /// a harness-level event point (e.g. "use snapshot", "run action")
     pub fn point(&self, text: String) {
         let _hg = HarnessGuard::new();
